@@ -78,6 +78,7 @@ type MQRec struct {
 	Issued                    uint64 // sum over distinct B_ signed for this quote
 	IssueSeqs                 []int
 	Internal                  int // internal settlements (payments by melt)
+	viaRestore                bool
 	Seq                       int
 }
 
@@ -122,6 +123,7 @@ type MintBook struct {
 	LQOrder  []string
 	Keysets  map[string]*KeysetInfo
 	MQByHash map[string]string
+	OutQuote map[string]string // B_ -> mint quote it was submitted for in a refused mint request
 }
 
 type Book struct {
@@ -139,7 +141,7 @@ func (b *Book) Mint(name string) *MintBook {
 	m := b.M[name]
 	if m == nil {
 		m = &MintBook{Name: name, Sigs: map[string]*SigRec{}, Secrets: map[string]*SecretRec{}, MQ: map[string]*MQRec{},
-			LQ: map[string]*LQRec{}, Keysets: map[string]*KeysetInfo{}, MQByHash: map[string]string{}}
+			LQ: map[string]*LQRec{}, Keysets: map[string]*KeysetInfo{}, MQByHash: map[string]string{}, OutQuote: map[string]string{}}
 		b.M[name] = m
 	}
 	return m
@@ -206,6 +208,9 @@ func (b *Book) Ingest(o *HTTPObs) {
 		// the request may still have had effects (crash mid-way): remember melt attempts
 		if o.Method == "POST" && strings.HasPrefix(o.Path, "/v1/melt/bolt11") {
 			b.ingestMelt(o, nil)
+		}
+		if o.Method == "POST" && strings.HasPrefix(o.Path, "/v1/mint/bolt11") {
+			b.ingestMint(o) // remembers the outputs' quote
 		}
 		return
 	}
@@ -472,11 +477,40 @@ func (b *Book) ingestMintQuote(o *HTTPObs) {
 	}
 }
 
+// checkQuoteIssuance: value issued for a quote (through mint responses and through restore of the
+// outputs of refused mint requests) against its payments.
+func (b *Book) checkQuoteIssuance(m *MintBook, q *MQRec, via string) {
+	inv := b.w.LN.Invoices[q.Hash]
+	payments := uint64(b.internalSettlements(m, q))
+	if inv != nil {
+		payments += uint64(inv.PaidCount)
+	}
+	if payments == 0 {
+		b.Violate("C03.before_paid", via, "quote %s has signatures out (%s) before any payment", short(q.ID), via)
+	} else if q.Issued > q.Amount*payments {
+		b.Violate("C03.over_issue", fmt.Sprintf("issues=%d+restore", len(q.IssueSeqs)), "quote %s (amount %d, payments %d) has issued %d sat: %d mint responses plus signatures of refused requests handed out by restore",
+			short(q.ID), q.Amount, payments, q.Issued, len(q.IssueSeqs))
+	}
+}
+
 func (b *Book) ingestMint(o *HTTPObs) {
+	m := b.Mint(o.Mint)
 	if o.Status != 200 {
+		// remember for which quote these outputs were submitted: should their signatures ever
+		// leave the mint through restore, that is an issuance for this quote
+		var rq struct {
+			Quote   string    `json:"quote"`
+			Outputs []JOutput `json:"outputs"`
+		}
+		if json.Unmarshal(o.Req, &rq) == nil && rq.Quote != "" {
+			for _, out := range rq.Outputs {
+				if _, seen := m.OutQuote[out.B_]; !seen {
+					m.OutQuote[out.B_] = rq.Quote
+				}
+			}
+		}
 		return
 	}
-	m := b.Mint(o.Mint)
 	var req struct {
 		Quote     string    `json:"quote"`
 		Outputs   []JOutput `json:"outputs"`
@@ -515,8 +549,12 @@ func (b *Book) ingestMint(o *HTTPObs) {
 		if payments == 0 {
 			b.Violate("C03.before_paid", "mint", "quote %s issued %d sat before any payment", short(q.ID), newVal)
 		} else if q.Issued > q.Amount*payments {
-			b.Violate("C03.over_issue", fmt.Sprintf("issues=%d", len(q.IssueSeqs)), "quote %s (amount %d, payments %d) has issued %d sat in %d issuances",
-				short(q.ID), q.Amount, payments, q.Issued, len(q.IssueSeqs))
+			fp := fmt.Sprintf("issues=%d", len(q.IssueSeqs))
+			if q.viaRestore {
+				fp += "+restore"
+			}
+			b.Violate("C03.over_issue", fp, "quote %s (amount %d, payments %d) has issued %d sat in %d issuances (incl. signatures of refused requests handed out by restore: %v)",
+				short(q.ID), q.Amount, payments, q.Issued, len(q.IssueSeqs), q.viaRestore)
 		}
 		// NUT-20
 		if q.Pubkey != "" {
@@ -848,6 +886,15 @@ func (b *Book) ingestRestore(o *HTTPObs) {
 			m.SigSeq = append(m.SigSeq, out.B_)
 			b.w.S.Stats["book_restore_new_sig"]++
 			b.checkSig(m, JOutput{Amount: sg.Amount, ID: sg.ID, B_: out.B_}, sg, "restore")
+			if qid := m.OutQuote[out.B_]; qid != "" {
+				if q := m.MQ[qid]; q != nil {
+					// issued for that quote, handed out through restore instead of the mint response
+					b.w.S.Stats["book_restore_issuance_for_quote"]++
+					q.Issued = satAdd(q.Issued, sg.Amount)
+					q.viaRestore = true
+					b.checkQuoteIssuance(m, q, "restore")
+				}
+			}
 		}
 	}
 	for _, out := range req.Outputs {
